@@ -125,12 +125,14 @@ func VH_C08_Step(batchSize, preOpen, k, step int) {
 			vhFire(open0.timer)
 			ptw.awaitBatch(open0)
 			vhAssert(ptw.currBatch == nil, "timer-detaches-the-open-batch")
-			vhAssert(len(ptw.queue.queue) == 1 && ptw.queue.queue[0] == open0, "timer-queues-the-open-batch")
+			q0, _ := vhQueueSnapshot(&ptw.queue)
+			vhAssert(len(q0) == 1 && q0[0] == open0, "timer-queues-the-open-batch")
 		}
 	case 2:
 		ptw.close()
 		vhAssert(ptw.currBatch == nil, "close-detaches-the-open-batch")
-		vhAssert(ptw.queue.closed, "close-closes-the-queue")
+		_, qClosed := vhQueueSnapshot(&ptw.queue)
+		vhAssert(qClosed, "close-closes-the-queue")
 		if open0 != nil {
 			vhAssert(vhIsClosed(open0.ready), "close-triggers-the-open-batch")
 		}
@@ -138,10 +140,11 @@ func VH_C08_Step(batchSize, preOpen, k, step int) {
 
 	// post-state: everything queued respects the limits, order is preserved (C07), the open batch is not full
 	var after []int
-	for qi, b := range ptw.queue.queue {
+	queuedNow, _ := vhQueueSnapshot(&ptw.queue) // what a consumer of the queue gets, in order (through Put/Get/Close only)
+	for qi, b := range queuedNow {
 		after = append(after, vhCheckBatch(b, batchSize, batchBytes, true, "queued-batch")...)
 		for qj := 0; qj < qi; qj++ {
-			vhAssert(ptw.queue.queue[qj] != b, "batch-queued-at-most-once")
+			vhAssert(queuedNow[qj] != b, "batch-queued-at-most-once")
 		}
 		vhAssert(b != ptw.currBatch, "queued-batch-is-no-longer-current")
 	}
@@ -157,12 +160,12 @@ func VH_C08_Step(batchSize, preOpen, k, step int) {
 	}
 	// a batch that became full was queued in the same critical section: whatever is still open is not full
 	// (asserted in vhCheckBatch), and every new batch got exactly one flush goroutine
-	newBatches := len(ptw.queue.queue)
+	newBatches := len(queuedNow)
 	if ptw.currBatch != nil && ptw.currBatch != open0 {
 		newBatches++
 	}
 	if open0 != nil {
-		for _, b := range ptw.queue.queue {
+		for _, b := range queuedNow {
 			if b == open0 {
 				newBatches--
 			}
@@ -173,13 +176,41 @@ func VH_C08_Step(batchSize, preOpen, k, step int) {
 		// flushed without further input: when the timer of the batch left open expires, its flush goroutine
 		// queues it (the goroutine was spawned by writeMessages; here it gets to run)
 		open1 := ptw.currBatch
-		queued := len(ptw.queue.queue)
+		queued := len(queuedNow)
 		vhFire(open1.timer)
 		vhRunAll()
 		vhAssert(ptw.currBatch == nil, "open-batch-flushed-when-its-timer-expires")
-		vhAssert(len(ptw.queue.queue) == queued+1 && ptw.queue.queue[queued] == open1, "timer-queues-the-batch-left-open")
+		q1, _ := vhQueueSnapshot(&ptw.queue)
+		vhAssert(len(q1) == queued+1 && q1[queued] == open1, "timer-queues-the-batch-left-open")
 	}
 	vhReach("c08-step")
+}
+
+// vhQueueSnapshot returns the batches a consumer of the queue would get, in order, and whether the queue is
+// closed, using only the queue's own operations (Put, Get, Close, newBatchQueue) - not its representation. The
+// queue is drained and rebuilt with the same content.
+func vhQueueSnapshot(q *batchQueue) ([]*writeBatch, bool) {
+	sentinel := &writeBatch{}
+	closed := !q.Put(sentinel)
+	q.Close()
+	var items []*writeBatch
+	for {
+		b := q.Get()
+		if b == nil {
+			break
+		}
+		if b != sentinel {
+			items = append(items, b)
+		}
+	}
+	*q = newBatchQueue(10)
+	for _, b := range items {
+		q.Put(b)
+	}
+	if closed {
+		q.Close()
+	}
+	return items, closed
 }
 
 // Validation at the API: WriteMessages rejects, before anything is sent, a message whose total size (key, value,
